@@ -72,6 +72,10 @@ impl QueryBuilder for SqliteQueryBuilder {
         }
     }
 
+    fn returning_precedes_order_by(&self) -> bool {
+        true
+    }
+
     fn prepare_value(&self, value: &Value, sql: &mut dyn SqlWriter) {
         sql.push_param(value.clone(), self as _);
     }
